@@ -76,7 +76,48 @@ Proof.
          try (specialize (H2 (conj eq_refl eq_refl)); discriminate)).
 Qed.
 
+(* erosion, per polygon and of the union: verdict 0 means both clauses hold at the sample *)
+Theorem shrink_each_verdict_zero_lemma : forall G R rin rout p,
+    shrink_each_verdict G R rin rout p = 0 <->
+    (existsb (fun g => inside g p && negb (poly_near p g rout)) G = true -> covers R p = true)
+    /\ (forallb (fun g => negb (inside g p) || poly_near p g rin) G = true -> covers R p = false)
+    /\ (wn_sum R p = 0 \/ wn_sum R p = 1).
+Proof.
+  intros G R rin rout p. unfold shrink_each_verdict.
+  rewrite <- zero_or_one.
+  destruct ((wn_sum R p =? 0) || (wn_sum R p =? 1));
+  destruct (existsb (fun g => inside g p && negb (poly_near p g rout)) G);
+  destruct (forallb (fun g => negb (inside g p) || poly_near p g rin) G);
+  destruct (covers R p); cbn [orb andb negb]; split; intros H;
+    try discriminate; try reflexivity;
+    try (repeat split; intros; try tauto; try discriminate; intuition discriminate);
+    try (destruct H as [H1 [H2 H3]]; try discriminate;
+         try (specialize (H1 eq_refl); discriminate);
+         try (specialize (H2 eq_refl); discriminate)).
+Qed.
+
+Theorem shrink_union_verdict_zero_lemma : forall G B R outside rin rout p,
+    shrink_union_verdict G B R outside rin rout p = 0 <->
+    ((covers G p = true /\ group_near p B rout = false) -> covers R p = true)
+    /\ ((covers G p = false \/ near_any p outside rin = true) -> covers R p = false)
+    /\ (wn_sum R p = 0 \/ wn_sum R p = 1).
+Proof.
+  intros G B R outside rin rout p. unfold shrink_union_verdict.
+  rewrite <- zero_or_one.
+  destruct ((wn_sum R p =? 0) || (wn_sum R p =? 1));
+  destruct (covers G p); destruct (group_near p B rout); destruct (near_any p outside rin);
+    destruct (covers R p); cbn [orb andb negb]; split; intros H;
+    try discriminate; try reflexivity;
+    try (repeat split; intros; try tauto; try discriminate; intuition discriminate);
+    try (destruct H as [H1 [H2 H3]]; try discriminate;
+         try (specialize (H1 (conj eq_refl eq_refl)); discriminate);
+         try (specialize (H2 (or_introl eq_refl)); discriminate);
+         try (specialize (H2 (or_intror eq_refl)); discriminate)).
+Qed.
+
 Print Assumptions sample_ok_lemma.
+Print Assumptions shrink_each_verdict_zero_lemma.
+Print Assumptions shrink_union_verdict_zero_lemma.
 Print Assumptions bool_verdict_zero_lemma.
 Print Assumptions partition_verdict_zero_lemma.
 Print Assumptions grow_verdict_zero_lemma.
